@@ -1,4 +1,4 @@
-\* thorough tier: 6 phases x flag x lists of <= 3 models (or None), then every lifecycle of <= 5 steps over <= 4 species
+\* thorough tier: 6 phases x flag x lists of <= 3 models (or None), then every lifecycle of <= 4 steps over <= 4 species (657k states)
 SPECIFICATION Spec
 CONSTANTS
   Phases <- MCPhases
@@ -6,7 +6,7 @@ CONSTANTS
   Givens <- MCGivens
   AttachKinds <- MCAttach
   MaxObjs = 4
-  MaxSteps = 6
+  MaxSteps = 5
   Alias = FALSE
   IgnoreFlag = FALSE
   DictReload = FALSE
